@@ -259,7 +259,9 @@ def rule_unq(S):
     for n in puts:
         tg = facts.get(n.get('callee'))
         a = call_args(cs, n)
-        ui = [i for i, p in enumerate(tg.params) if p['name'] == 'unique_restriction'] if tg else []
+        ui = [i for i, p in enumerate(tg.params) if p['type'].replace('const ', '') == 'bool'] if tg else []
+        if len(ui) != 1:
+            ui = [i for i, p in enumerate(tg.params) if p['name'] == 'unique_restriction'] if tg else []
         uniq = bool(ui) and ui[0] < len(a) and R.const_of(cs, a[ui[0]]) == 'T'
         cat = any(is_call(x, cq='yakushima::storage::get_storages') for x in cs.walk(a[1])) if len(a) > 1 else False
         key = len(a) > 2 and root_var(cs, a[2]) == name
